@@ -2,7 +2,6 @@ package exec
 
 import (
 	"math"
-	"strconv"
 
 	"github.com/ChrisTrenkamp/xsel/grammar"
 	"github.com/ChrisTrenkamp/xsel/grammar/parser/symbols"
@@ -19,11 +18,9 @@ func init() {
 }
 
 func execNumber(context *exprContext, expr *grammar.Grammar) error {
-	numStr := expr.GetString()
-	numResult, err := strconv.ParseFloat(numStr, 64)
-
-	context.result = Number(numResult)
-	return err
+	// A numeral too large for a double is Infinity, not an error.
+	context.result = Number(getStringNumber(expr.GetString()))
+	return nil
 }
 
 func execAdditiveExprAdd(context *exprContext, expr *grammar.Grammar) error {
